@@ -44,10 +44,12 @@ def make_system(md, rng, n_atoms):
     ch = top.add_chain()
     # mostly organic elements, plus ions and metals: the documented radii table (_ATOMIC_RADII) differs from Element.radius for about two dozen of them
     els = ["C", "N", "O", "H", "S"] * 3 + ["P", "Na", "K", "Cl", "Mg", "Ca", "Li", "Zn", "Fe", "Cs", "Ba", "Be", "F", "Br", "I"]
-    r = None
+    # in a third of the systems the atom numbering does not follow the residues (atoms added to an earlier residue): per-atom tables
+    # (radii) and the residue mapping must follow the atom indices, i.e. the coordinate columns
+    res = [top.add_residue("ALA", ch) for _ in range((n_atoms + 3) // 4)]
+    scattered = rng.random() < 0.33
     for a in range(n_atoms):
-        if a % 4 == 0:
-            r = top.add_residue("ALA", ch)
+        r = res[rng.randrange(len(res))] if (scattered and a % 4) else res[a // 4]     # every residue keeps one atom
         top.add_atom("X%d" % a, md.element.get_by_symbol(rng.choice(els)), r)
     xyz = np.zeros((1, n_atoms, 3))
     placed = []
@@ -95,12 +97,12 @@ def run(ctx):
         radii_tab = dict(_ATOMIC_RADII)
         if change:
             radii_tab.update(change)
-        radii = np.array([radii_tab[a.element.symbol] + probe for a in t.topology.atoms], dtype=np.float32)
+        radii = np.array([radii_tab[t.topology.atom(i).element.symbol] + probe for i in range(t.n_atoms)], dtype=np.float32)
         pts = sphere_points(lib, nsp)
         got = md.shrake_rupley(t, probe_radius=probe, n_sphere_points=nsp, change_radii=change)[0]
         const = 4.0 * np.pi * radii.astype(np.float64) ** 2 / nsp
         cnt = got.astype(np.float64) / const
-        rp = dict(n_atoms=n_atoms, n_sphere_points=nsp, probe_radius=probe, change_radii=change, xyz=t.xyz[0].tolist(), elements=[a.element.symbol for a in t.topology.atoms])
+        rp = dict(n_atoms=n_atoms, n_sphere_points=nsp, probe_radius=probe, change_radii=change, xyz=t.xyz[0].tolist(), elements=[t.topology.atom(i).element.symbol for i in range(t.n_atoms)], residue_of_atom=[t.topology.atom(i).residue.index for i in range(t.n_atoms)])
         if np.abs(cnt - np.rint(cnt)).max() > 1e-3 * max(1, nsp / 50):
             viol("not-a-count", "areas are not integer multiples of 4*pi*R^2/n: recovered counts %s" % cnt.round(4).tolist(), rp)
         icnt = np.rint(cnt).astype(int)
@@ -136,7 +138,7 @@ def run(ctx):
         if not (np.array_equal(ga[sel], got[sel]) and np.all(ga[~sel] == -1)):
             viol("selection", "atom_indices=%s: selected atoms %s (all-atom run %s), unselected %s" % (idx.tolist(), ga[sel].tolist(), got[sel].tolist(), ga[~sel].tolist()), rp)
         gr = md.shrake_rupley(t, probe_radius=probe, n_sphere_points=nsp, change_radii=change, mode="residue")[0]
-        resid = np.array([a.residue.index for a in t.topology.atoms])
+        resid = np.array([t.topology.atom(i).residue.index for i in range(t.n_atoms)])
         sums = np.array([got[resid == r].astype(np.float64).sum() for r in range(t.n_residues)])
         if not np.allclose(gr, sums, rtol=2e-6, atol=1e-6):
             viol("residue-sum", "residue mode %s is not the sum of atom mode %s" % (gr.tolist(), sums.tolist()), rp)
